@@ -12,11 +12,11 @@
 #include "lib_common/linear_binary_codes_utils/of_linear_binary_code.h"
 
 typedef struct { int ra, ca, rb, cb; } scfg_t;
-enum { K_INS, K_DEL, K_CLEAR, K_COPY, K_COPYROWS, K_COPYCOLS, K_COPYROWS_OPT, K_COPYCOLS_OPT, K_FILLED, K_ROUNDTRIP, K_REALLOC };
+enum { K_INS, K_DEL, K_CLEAR, K_COPY, K_COPYROWS, K_COPYCOLS, K_COPYROWS_OPT, K_COPYCOLS_OPT, K_FILLED, K_ROUNDTRIP, K_REALLOC, K_FDI, K_FID };
 typedef struct { int kind, src, i, j; int vec[6], vec2[6]; } sop_t;	/* src: 0 = A (dest B for binary ops), 1 = B */
-static sop_t OPS[4096]; static int NOPS;
+static sop_t OPS[16384]; static int NOPS;
 static scfg_t CFG;
-static const char *KN[] = {"ins", "del", "clear", "copy", "copyrows", "copycols", "copyrows_opt", "copycols_opt", "copy_filled", "roundtrip", "realloc"};
+static const char *KN[] = {"ins", "del", "clear", "copy", "copyrows", "copycols", "copyrows_opt", "copycols_opt", "copy_filled", "roundtrip", "realloc", "find-delete-insert", "find-insert-delete"};
 
 typedef struct {
 	of_mod2sparse *m[2];
@@ -73,6 +73,7 @@ static int s_enabled (void *wv, int op)
 	case K_COPYROWS_OPT: return w->c[s] <= w->c[d] && empty (w, d);
 	case K_COPYCOLS_OPT: return w->r[s] <= w->r[d] && empty (w, d);
 	case K_FILLED: return w->r[s] <= w->r[d] && w->c[s] <= w->c[d];
+	case K_FDI: case K_FID: return w->set[s][o->vec[0]][o->vec[1]];
 	}
 	return 0;
 }
@@ -168,6 +169,22 @@ static void s_apply (void *wv, int op, int check)
 		of_mod2dense_to_sparse (dm, S);		/* clears S, then re-inserts */
 		of_mod2dense_free (dm);
 		break; }
+	case K_FDI: case K_FID: {
+		/* how applications move an entry: a pointer to entry Y obtained earlier by walking its row (no find), a query for cell X,
+		 * then delete (Y) and insert (Z) in either order, with nothing else in between (a pure query leaves the abstract state
+		 * unchanged, so the search would never extend a history through it: the composite operation does) */
+		of_mod2entry *ey, *ex, *ez;
+		for (ey = of_mod2sparse_first_in_row (S, o->vec[0]); !of_mod2sparse_at_end_row (ey) && ey->col != o->vec[1]; ey = of_mod2sparse_next_in_row (ey)) ;
+		if (of_mod2sparse_at_end_row (ey)) { if (check) sviol ("after=traverse|kind=row-traversal-missed-a-member"); break; }
+		ex = of_mod2sparse_find (S, (UINT32) o->i, (UINT32) o->j);
+		if (check && ((ex != NULL) != (w->set[s][o->i][o->j] != 0) || (ex && (ex->row != o->i || ex->col != o->j)))) sviol ("after=find|kind=find-disagrees-with-membership");
+		if (o->kind == K_FDI) of_mod2sparse_delete (S, ey);
+		ez = of_mod2sparse_insert (S, (UINT32) o->vec[2], (UINT32) o->vec[3]);
+		if (check && (!ez || ez->row != o->vec[2] || ez->col != o->vec[3])) sviol ("after=ins|kind=insert-returned-wrong-entry");
+		if (o->kind == K_FID) of_mod2sparse_delete (S, ey);
+		if (o->kind == K_FDI) { w->set[s][o->vec[0]][o->vec[1]] = 0; w->set[s][o->vec[2]][o->vec[3]] = 1; }
+		else { w->set[s][o->vec[2]][o->vec[3]] = 1; w->set[s][o->vec[0]][o->vec[1]] = 0; }
+		break; }
 	case K_REALLOC:
 		of_mod2sparse_free (S); of_free (S);
 		w->m[s] = of_mod2sparse_allocate ((UINT32) w->r[s], (UINT32) w->c[s]);
@@ -243,6 +260,15 @@ static void build_ops (const scfg_t *c)
 		int rs = s ? c->rb : c->ra, cs = s ? c->cb : c->ca, rd = s ? c->ra : c->rb, cd = s ? c->ca : c->cb;
 		for (i = 0; i < rs; i++) for (j = 0; j < cs; j++) { addop (K_INS, s, i, j, NULL, NULL); addop (K_DEL, s, i, j, NULL, NULL); }
 		addop (K_CLEAR, s, 0, 0, NULL, NULL); addop (K_ROUNDTRIP, s, 0, 0, NULL, NULL); addop (K_REALLOC, s, 0, 0, NULL, NULL);
+		if (s == 0) {	/* composite query / delete-by-pointer / insert operations on A: every triple of cells for up to 6 cells, else (X = Z, Y) within one row or one column */
+			int x, y, z, nc = rs * cs, kd;
+			for (x = 0; x < nc; x++) for (y = 0; y < nc; y++) for (z = 0; z < nc; z++) for (kd = K_FDI; kd <= K_FID; kd++) {
+				int v[6] = {y / cs, y % cs, z / cs, z % cs, 0, 0};
+				int samerow = x / cs == y / cs && y / cs == z / cs, samecol = x % cs == y % cs && y % cs == z % cs;
+				if (nc > 6 && ((!samerow && !samecol) || x != z)) continue;	/* larger matrices: query and insert the same cell, delete a neighbour in its row / column */
+				addop (kd, s, x / cs, x % cs, v, NULL);
+			}
+		}
 		if (rs <= rd && cs <= cd) addop (K_COPY, s, 0, 0, NULL, NULL);
 		if (cs <= cd) { enum_vec (K_COPYROWS, s, rd, rs); enum_vec (K_COPYROWS_OPT, s, rd, rs); }
 		if (rs <= rd) { enum_vec (K_COPYCOLS, s, cd, cs); enum_vec (K_COPYCOLS_OPT, s, cd, cs); }
